@@ -102,6 +102,70 @@ type heapKey struct {
 }
 
 func (e *Exec) heapGet(st *State, name, sort string) *Term {
+	t := e.heapGet0(st, name, sort)
+	if sort == "(Array Int Slice)" {
+		e.noteHeapTop(t, st)
+	}
+	return t
+}
+
+// noteHeapTop: every version of a heap array that is part of the heap of state st existed when st.allocTop was the
+// allocation mark or earlier, so the references stored in it are at most st.allocTop (the invariant that code loads
+// already assume, see unop). Recorded per version so that specification reads under a binder, which carry no facts,
+// get the bound once their witnesses are named (refFacts).
+func (e *Exec) noteHeapTop(a *Term, st *State) {
+	if st.allocTop == nil {
+		return
+	}
+	if e.verTops == nil {
+		e.verTops = map[int][]*Term{}
+		e.verTopSeen = map[[2]int]bool{}
+	}
+	k := [2]int{a.id, st.allocTop.id}
+	if e.verTopSeen[k] {
+		return
+	}
+	e.verTopSeen[k] = true
+	for _, b := range heapBases(a) {
+		dup := false
+		for _, t := range e.verTops[b.id] {
+			if t == st.allocTop {
+				dup = true
+			}
+		}
+		if !dup && len(e.verTops[b.id]) < 6 {
+			e.verTops[b.id] = append(e.verTops[b.id], st.allocTop)
+		}
+	}
+}
+
+// heapBases: the array constants an array term is built from (through stores, joins and named definitions).
+func heapBases(a *Term) []*Term {
+	var out []*Term
+	seen := map[int]bool{}
+	var walk func(t *Term, depth int)
+	walk = func(t *Term, depth int) {
+		if seen[t.id] || depth > 64 {
+			return
+		}
+		seen[t.id] = true
+		switch {
+		case t.kind == kDef && t.def != nil:
+			walk(t.def, depth+1)
+		case t.kind == kApp && t.op == "store":
+			walk(t.args[0], depth+1)
+		case t.kind == kApp && t.op == "ite":
+			walk(t.args[1], depth+1)
+			walk(t.args[2], depth+1)
+		case t.kind == kVar:
+			out = append(out, t)
+		}
+	}
+	walk(a, 0)
+	return out
+}
+
+func (e *Exec) heapGet0(st *State, name, sort string) *Term {
 	if t, ok := st.heap[name]; ok {
 		return t
 	}
@@ -118,7 +182,7 @@ func (e *Exec) heapGet(st *State, name, sort string) *Term {
 		// the state is a join of states with different heap generations: resolve through the parents
 		vals := make([]*Term, len(st.lazyParents))
 		for i, ps := range st.lazyParents {
-			vals[i] = e.heapGet(ps, name, sort)
+			vals[i] = e.heapGet0(ps, name, sort)
 		}
 		t := e.mergeTerms(st.lazyReach, vals, name)
 		st.heap[name] = t
